@@ -167,6 +167,12 @@ def run (s : State) (k : Key) (files : List File) (stop : StopAt) : State × Rep
   | .afterFlush => (next (upTo isFlushed) .kill, .stopped)
   | .afterCacheWrite => (next (stepsUntil (fun _ => false) fuel s0) .kill, .stopped)
 
+/-- a run with the cache disabled (`--info-export`): `try_from` refuses ("cache disabled") whatever the cache file says, the rest
+    of `execute` is the same — the old cache is removed, the ninja file rewritten, a new record written -/
+def runNoCache (s : State) (k : Key) (files : List File) : State × Report :=
+  let fuel := 4 * files.length + 12
+  (stepsUntil (fun _ => false) fuel (next s (.start k files)), .done)
+
 /-- a run whose generation fails after the ninja file was created (e.g. unknown builder, bad rule) -/
 def runFailing (s : State) (k : Key) (files : List File) : State × Report :=
   if hit s k then (s, .hit) else
